@@ -85,6 +85,12 @@ static std::string run_own(const OwnScript& sc) {
     if (d.IsObject()) {
       d.CreateMap(d.GetAllocator());
       d.RemoveMember("a");
+      // the non-const operator[] hands out a reference to the null node for an absent key: writing through it touches only
+      // what this thread owns, and the next absent-key lookup must see a null node again
+      d["absent-key-one"].SetInt64((int64_t)out.size());
+      out += d["absent-key-two"].IsNull() ? "n" : "?";
+      const auto& cd = d;
+      out += cd["absent-key-three"].IsNull() ? "n" : "?";
     }
     if (d.IsArray() && !d.Empty()) d.PopBack();
     Document c;
